@@ -230,7 +230,7 @@ func drawC18Subject(t *rapid.T) c18Subject {
 }
 
 func TestC18_ReadOnly(t *testing.T) {
-	st := NewStats("C18", "TestC18_ReadOnly", "rapid: a subject (claims-set of either profile as struct literal / via setters / decoded from CBOR with permuted and extra keys / decoded from JSON / an extension-profile instance; valid or with rule deviations; or an Evidence, decoded or freshly signed) and a random sequence of 1..30 read-side calls {Validate, each of the 10 getters, all getters, Encode CBOR/JSON, validate-and-encode CBOR/JSON, component-container Validate/Values/IsEmpty, Evidence.MarshalJSON / GetInstanceID / GetImplementationID / Verify with right, wrong, other-algorithm and nil key}. Oracle: the reflect-based deep fingerprint of everything a caller can reach (exported fields, pointers, slices, the component container) is identical before and after every call; every call repeated immediately returns the identical result; Observe (all getters + validity + both encodings) is identical at the end; Verify outcomes are stable. Non-trivial = sequence contains an encode or validate call on a set with an empty component container or an absent optional claim; distinct = subject kind + class of subject + op sequence")
+	st := NewStats("C18", "TestC18_ReadOnly", "rapid: a subject (claims-set of either profile as struct literal / via setters / decoded from CBOR with permuted and extra keys / decoded from JSON / an extension-profile instance; valid or with rule deviations; or an Evidence, decoded or freshly signed) and a random sequence of 1..30 read-side calls {Validate, each of the 10 getters, all getters, Encode CBOR/JSON, validate-and-encode CBOR/JSON, component-container Validate/Values/IsEmpty, Evidence.MarshalJSON / GetInstanceID / GetImplementationID / Verify with right, wrong, other-algorithm and nil key}. Oracle: the reflect-based deep fingerprint of everything a caller can reach (exported fields, pointers, slices, the component container) is identical before and after every call; every call repeated immediately returns the identical result; Observe (all getters + validity + both encodings) is identical at the end; Verify outcomes are stable; byte slices returned by earlier encode calls keep their content while other claims-sets are encoded in between. Non-trivial = sequence contains an encode or validate call on a set with an empty component container or an absent optional claim; distinct = subject kind + class of subject + op sequence")
 	st.Require = []string{"literal", "decoded-cbor", "decoded-json", "setters", "evidence-decoded", "evidence-signed", "extension", "sparse"}
 	defer st.Flush(t)
 	withExtProfiles(func() {
@@ -255,7 +255,53 @@ func TestC18_ReadOnly(t *testing.T) {
 			n := rapid.IntRange(1, 30).Draw(t, "nops")
 			var seq []string
 			nt := false
+			// results handed out earlier must stay what they were while other
+			// objects are encoded (a result aliasing a reused buffer would not)
+			type heldT struct {
+				what string
+				b    []byte
+				snap string
+			}
+			var held []heldT
+			hold := func(what string, b []byte, err error) {
+				if err == nil && len(b) > 0 {
+					held = append(held, heldT{what, b, string(b)})
+				}
+			}
+			otherM := GenValid(t, drawProf(t), false)
+			other, _ := otherM.BuildLiteral()
+			verify0 := ""
+			if s.ev != nil {
+				for _, k := range s.keys {
+					verify0 += fmt.Sprint(s.ev.Verify(k.Pub) == nil)
+				}
+			}
 			for i := 0; i < n; i++ {
+				switch rapid.IntRange(0, 9).Draw(t, "side") {
+				case 0:
+					b, err := psatoken.EncodeClaimsToCBOR(s.claims)
+					hold("EncodeClaimsToCBOR", b, err)
+					seq = append(seq, "hold:cbor")
+				case 1:
+					b, err := psatoken.EncodeClaimsToJSON(s.claims)
+					hold("EncodeClaimsToJSON", b, err)
+					seq = append(seq, "hold:json")
+				case 2:
+					b, err := psatoken.ValidateAndEncodeClaimsToCBOR(s.claims)
+					hold("ValidateAndEncodeClaimsToCBOR", b, err)
+					seq = append(seq, "hold:vcbor")
+				case 3, 4:
+					// encode something else in between
+					_, _ = psatoken.EncodeClaimsToCBOR(other)
+					_, _ = psatoken.ValidateAndEncodeClaimsToCBOR(other)
+					_, _ = psatoken.EncodeClaimsToJSON(other)
+					seq = append(seq, "encode-other")
+				}
+				for _, h := range held {
+					if string(h.b) != h.snap {
+						t.Fatalf("C18 violated (%s): bytes returned earlier by %s changed afterwards (the result aliases memory that later calls overwrite)\n  sequence: %v", s.desc, h.what, seq)
+					}
+				}
 				op := ops[rapid.IntRange(0, len(ops)-1).Draw(t, "op")]
 				seq = append(seq, op.name)
 				r1 := op.run()
@@ -272,6 +318,15 @@ func TestC18_ReadOnly(t *testing.T) {
 			}
 			if d := obs0.Diff(Observe(s.claims)); d != "" {
 				t.Fatalf("C18 violated (%s): observations changed over a sequence of read-only calls: %s\n  sequence: %v", s.desc, d, seq)
+			}
+			if s.ev != nil {
+				v1 := ""
+				for _, k := range s.keys {
+					v1 += fmt.Sprint(s.ev.Verify(k.Pub) == nil)
+				}
+				if v1 != verify0 {
+					t.Fatalf("C18 violated (%s): verification outcomes changed over a sequence of read-only calls (and encodings of other objects): %s -> %s\n  sequence: %v", s.desc, verify0, v1, seq)
+				}
 			}
 			cls := []string{s.desc}
 			if s.sparse {
